@@ -659,7 +659,8 @@ def run(check):
         'faults as responses (C09), XML-level hostility (C10/C17)',
         'zeep limitations that narrow what is compared through it: it reads an empty element as None whatever its type, ignores '
         'xsi:nil on complex-typed elements, cannot write xsd.Nil items in sequences or absent simple content, cannot parse a reply '
-        'whose body element has a simple type (those replies are read by the reference decoder), prints years < 1000 unpadded',
+        'whose body element has a simple type (those replies are read by the reference decoder), encodes a bare base64Binary '
+        'argument twice, prints years < 1000 unpadded',
     ]
     check.extra['violations_not_listed'] = 0
     orig_fail = check.fail
@@ -835,7 +836,7 @@ def oracle_clients(check, tier):
     per_method = 2 if tier == 'quick' else 4
     stats = check.extra.setdefault('oracle', {'wsgi': 0, 'zeep': 0, 'spyne_client': 0, 'zeep_clients': 0})
     for wi in range(n_worlds):
-        w = World(rng, model_only=False, header_ns_tns=True)
+        w = World(rng, model_only=False, header_ns_tns=False)
         for prot in PROTS:
             for val in VALIDATORS:
                 try:
@@ -939,6 +940,8 @@ def zeep_case(check, w, app, zs, plan, prot, val, m, call):
     if m['style'] == 'bare' and len(m['params']) == 1:
         if nil_complex_item(desc, m['params'][0]['ty'], call['args'][0]):
             return
+        if call['args'][0][0] == 'bytes':
+            return          # zeep base64-encodes a body element of type xs:base64Binary twice
     else:
         for p, a in zip(m['params'], call['args']):
             if X.is_multi(p) and a[0] == 'list':
